@@ -49,10 +49,14 @@ MAPS = {'contents': ('EInContents', 'EContentsIdx', 'EContentsGet'),
 class Fn:
     """translation of one method body with parameters (self, name)"""
 
-    def __init__(self, fn):
+    def __init__(self, fn, helper=False, module_funcs=None):
         self.fn = fn
+        self.helper = helper
+        self.module_funcs = module_funcs or {}
         a = fn.args
-        if a.vararg or a.kwarg or a.kwonlyargs or a.posonlyargs or a.defaults or [x.arg for x in a.args] != ['self', 'name']:
+        if a.vararg or a.kwarg or a.kwonlyargs or a.posonlyargs or a.defaults:
+            bad('parameter list of %s' % fn.name, fn)
+        if not helper and [x.arg for x in a.args] != ['self', 'name']:
             bad('parameters of %s are not (self, name)' % fn.name, fn)
         if fn.decorator_list:
             bad('decorated %s' % fn.name, fn)
@@ -60,6 +64,13 @@ class Fn:
         self.types = {}
         self.assigned = set()
         self.hidden = 0
+        self.dict_alias = {}      # local -> (attr, receiver text): a local bound to x.contents / x._localNameToFullName_map
+        self.gen_alias = {}       # local -> ast.GeneratorExp
+        if helper:
+            for x in a.args:      # the parameters of a helper are its locals 0, 1, ...
+                if x.arg == 'self':
+                    bad('helper with a self parameter', fn)
+                self.bind(x.arg, 'any')
 
     # ---- locals
     def var(self, name):
@@ -78,8 +89,26 @@ class Fn:
         return self.bind('$h%d' % self.hidden, ty), '$h%d' % self.hidden
 
     # ---- expressions: returns (coq text, type) with type in str | seg? no: 'str','list','int','bool','obj','optobj','none','any'
+    def as_dict(self, e):
+        """(attr, receiver text) when e denotes x.contents / x._localNameToFullName_map, directly or through a local"""
+        if isinstance(e, ast.Attribute) and e.attr in MAPS:
+            return e.attr, self.obj(e.value)
+        if isinstance(e, ast.Name) and e.id in self.dict_alias:
+            return self.dict_alias[e.id]
+        return None
+
+    def dict_get(self, d, key, default):
+        attr, recv = d
+        k = self.expr(key)[0]
+        if attr == 'contents' and default is None:
+            return 'EContentsGet (%s) (%s)' % (recv, k), 'optobj'
+        dflt = 'EConst VNone' if default is None else self.expr(default)[0]
+        return 'ECond (%s (%s) (%s)) (%s (%s) (%s)) (%s)' % (MAPS[attr][0], recv, k, MAPS[attr][1], recv, k, dflt), 'any'
+
     def expr(self, e):
         if isinstance(e, ast.Constant):
+            if e.value == '' and isinstance(e.value, str):
+                return 'EConst (VStr [])', 'str'
             if e.value is None:
                 return 'EConst VNone', 'none'
             if e.value is True or e.value is False:
@@ -88,10 +117,12 @@ class Fn:
                 return 'EConst (VInt (%d)%%Z)' % e.value, 'int'
             bad('constant', e)
         if isinstance(e, ast.Name):
-            if e.id == 'self':
+            if e.id == 'self' and not self.helper:
                 return 'ESelf', 'obj'
-            if e.id == 'name':
+            if e.id == 'name' and not self.helper:
                 return 'EName', 'str'
+            if e.id in self.dict_alias or e.id in self.gen_alias:
+                bad('a local bound to a dict / generator used as a value', e)
             if e.id not in self.assigned:
                 bad('local %r read before it is bound' % e.id, e)
             return 'EVar %s' % self.var(e.id), self.types.get(e.id, 'any')
@@ -112,17 +143,26 @@ class Fn:
                 if not (isinstance(r, ast.Constant) and r.value is None):
                     bad('`is` with something other than None', e)
                 return '%s (%s)' % ('EIsNone' if isinstance(op, ast.Is) else 'EIsNotNone', self.expr(l)[0]), 'bool'
-            if isinstance(op, ast.In):
-                if isinstance(r, ast.Attribute) and r.attr in MAPS:
-                    return '%s (%s) (%s)' % (MAPS[r.attr][0], self.obj(r.value), self.expr(l)[0]), 'bool'
+            if isinstance(op, (ast.In, ast.NotIn)):
+                d = self.as_dict(r)
+                if d is not None:
+                    t = '%s (%s) (%s)' % (MAPS[d[0]][0], d[1], self.expr(l)[0])
+                    return (t if isinstance(op, ast.In) else 'ENot (%s)' % t), 'bool'
                 bad('`in` on something other than contents / _localNameToFullName_map', e)
             lt, rt = self.expr(l), self.expr(r)
             if isinstance(op, ast.Eq):
                 return 'EEq (%s) (%s)' % (lt[0], rt[0]), 'bool'
             if isinstance(op, ast.NotEq):
                 return 'ENe (%s) (%s)' % (lt[0], rt[0]), 'bool'
-            if isinstance(op, ast.Lt) and lt[1] == 'int' and rt[1] == 'int':
-                return 'ELt (%s) (%s)' % (lt[0], rt[0]), 'bool'
+            if lt[1] == 'int' and rt[1] == 'int':
+                if isinstance(op, ast.Lt):
+                    return 'ELt (%s) (%s)' % (lt[0], rt[0]), 'bool'
+                if isinstance(op, ast.Gt):
+                    return 'ELt (%s) (%s)' % (rt[0], lt[0]), 'bool'
+                if isinstance(op, ast.GtE):
+                    return 'ENot (ELt (%s) (%s))' % (lt[0], rt[0]), 'bool'
+                if isinstance(op, ast.LtE):
+                    return 'ENot (ELt (%s) (%s))' % (rt[0], lt[0]), 'bool'
             bad('comparison', e)
         if isinstance(e, ast.BinOp) and isinstance(e.op, ast.Add):
             a, b = self.expr(e.left), self.expr(e.right)
@@ -132,9 +172,19 @@ class Fn:
                 return 'EConcat (%s) (%s)' % (a[0], b[0]), 'list'
             bad('`+` on operands that are not both int or both list', e)
         if isinstance(e, ast.List):
-            if len(e.elts) != 1:
-                bad('list literal with other than one element', e)
-            return 'ESingleton (%s)' % self.expr(e.elts[0])[0], 'list'
+            # [a] ; [a, *l] = [a] + l
+            if len(e.elts) == 1 and not isinstance(e.elts[0], ast.Starred):
+                return 'ESingleton (%s)' % self.expr(e.elts[0])[0], 'list'
+            if len(e.elts) == 2 and not isinstance(e.elts[0], ast.Starred) and isinstance(e.elts[1], ast.Starred):
+                tail = self.expr(e.elts[1].value)
+                if tail[1] != 'list':
+                    bad('starred element that is not a list', e)
+                return 'EConcat (ESingleton (%s)) (%s)' % (self.expr(e.elts[0])[0], tail[0]), 'list'
+            bad('list literal', e)
+        if isinstance(e, ast.IfExp):
+            return 'ECond (%s) (%s) (%s)' % (self.expr(e.test)[0], self.expr(e.body)[0], self.expr(e.orelse)[0]), 'any'
+        if isinstance(e, ast.Tuple) and len(e.elts) == 2:
+            return 'EPair (%s) (%s)' % (self.expr(e.elts[0])[0], self.expr(e.elts[1])[0]), 'pair'
         if isinstance(e, ast.JoinedStr):
             v = e.values
             if (len(v) == 3 and isinstance(v[0], ast.FormattedValue) and isinstance(v[2], ast.FormattedValue)
@@ -143,9 +193,9 @@ class Fn:
                 return 'EDot (%s) (%s)' % (self.expr(v[0].value)[0], self.expr(v[2].value)[0]), 'str'
             bad('f-string other than f"{a}.{b}"', e)
         if isinstance(e, ast.Subscript):
-            if isinstance(e.value, ast.Attribute) and e.value.attr in MAPS and not isinstance(e.slice, ast.Slice):
-                return '%s (%s) (%s)' % (MAPS[e.value.attr][1], self.obj(e.value.value), self.expr(e.slice)[0]), \
-                    ('obj' if e.value.attr == 'contents' else 'str')
+            d = self.as_dict(e.value)
+            if d is not None and not isinstance(e.slice, ast.Slice):
+                return '%s (%s) (%s)' % (MAPS[d[0]][1], d[1], self.expr(e.slice)[0]), ('obj' if d[0] == 'contents' else 'str')
             base = self.expr(e.value)
             if base[1] != 'list':
                 bad('subscript of something that is not a list', e)
@@ -194,8 +244,8 @@ class Fn:
                     return 'EFullName (%s)' % self.obj(f.value), 'str'
                 if m == 'objForFullName' and len(e.args) == 1 and ast.unparse(f.value) == 'self.system':
                     return 'EObjFor (%s)' % self.expr(e.args[0])[0], 'optobj'
-                if m == 'get' and len(e.args) == 1 and isinstance(f.value, ast.Attribute) and f.value.attr == 'contents':
-                    return 'EContentsGet (%s) (%s)' % (self.obj(f.value.value), self.expr(e.args[0])[0]), 'optobj'
+                if m == 'get' and len(e.args) in (1, 2) and self.as_dict(f.value) is not None:
+                    return self.dict_get(self.as_dict(f.value), e.args[0], e.args[1] if len(e.args) == 2 else None)
             bad('call', e)
         bad('expression %s' % type(e).__name__, e)
 
@@ -239,6 +289,24 @@ class Fn:
             if len(s.targets) != 1:
                 bad('chained assignment', s)
             t = s.targets[0]
+            if isinstance(t, ast.Name) and t.id not in ('self', 'name') or (self.helper and isinstance(t, ast.Name)):
+                # a local that caches a dict / names a generator: no statement, the local stands for the expression
+                if isinstance(s.value, ast.Attribute) and s.value.attr in MAPS:
+                    self.dict_alias[t.id] = (s.value.attr, self.obj(s.value.value))
+                    return []
+                if isinstance(s.value, ast.GeneratorExp):
+                    self.gen_alias[t.id] = s.value
+                    return []
+            call = self.helper_call(s.value)
+            if call is not None:
+                callee, args = call
+                if isinstance(t, ast.Tuple) and all(isinstance(x, ast.Name) for x in t.elts):
+                    ts = [self.bind(x.id, 'any') for x in t.elts]
+                elif isinstance(t, ast.Name):
+                    ts = [self.bind(t.id, 'any')]
+                else:
+                    bad('target of a helper call', s)
+                return ['SCall [%s] (%s) [%s]' % ('; '.join(ts), callee, '; '.join(args))]
             text, ty = self.expr(s.value)
             if isinstance(t, ast.Tuple):
                 # a, *b = e     ->  h = e ; a = h[0] ; b = h[1:]
@@ -298,8 +366,61 @@ class Fn:
         if isinstance(s, ast.Return):
             if s.value is None:
                 return ['SReturn (EConst VNone)']
-            return ['SReturn (%s)' % self.expr(s.value)[0]]
+            v = s.value
+            if (isinstance(v, ast.Call) and isinstance(v.func, ast.Name) and v.func.id == 'next' and len(v.args) == 2
+                    and not v.keywords):
+                return self.unroll_next(v)
+            return ['SReturn (%s)' % self.expr(v)[0]]
         bad('statement %s' % type(s).__name__, s)
+
+    def helper_call(self, v):
+        """f(args) with f a module-level function of model.py whose body is in the language: (callee text, [arg texts])"""
+        if not (isinstance(v, ast.Call) and isinstance(v.func, ast.Name) and v.func.id in self.module_funcs and not v.keywords):
+            return None
+        fn = self.module_funcs[v.func.id]
+        if len(v.args) != len(fn.args.args) or any(isinstance(a, ast.Starred) for a in v.args):
+            bad('arguments of helper %s' % fn.name, v)
+        sub = Fn(fn, helper=True, module_funcs={k: f for k, f in self.module_funcs.items() if k != fn.name})
+        return sub.translate(), [self.expr(a)[0] for a in v.args]
+
+    def unroll_next(self, call):
+        """return next(G, default), G a pipeline of generator expressions over a list  ->  for loop with early return"""
+        stages = []
+
+        def collect(g):
+            if isinstance(g, ast.Name) and g.id in self.gen_alias:
+                g = self.gen_alias[g.id]
+            if not isinstance(g, ast.GeneratorExp):
+                return self.expr(g)            # the list the pipeline starts from
+            if len(g.generators) != 1 or g.generators[0].is_async or not isinstance(g.generators[0].target, ast.Name):
+                bad('generator expression', g)
+            src = collect(g.generators[0].iter)
+            stages.append(g)
+            return src
+        src = collect(call.args[0])
+        if not stages or src[1] != 'list':
+            bad('next() over something that is not a generator pipeline over a list', call)
+        default = call.args[1]
+        first = stages[0].generators[0]
+        x = self.bind(first.target.id, 'any')
+        before = set(self.assigned)
+
+        def body(k):
+            g = stages[k]
+            comp = g.generators[0]
+            if k + 1 < len(stages):
+                nxt = stages[k + 1].generators[0]
+                inner = 'SSeq (SAssign %s (%s)) (%s)' % (self.bind(nxt.target.id, 'any'), self.expr(g.elt)[0], '%s')
+                rest = inner % body(k + 1)
+            else:
+                rest = 'SReturn (%s)' % self.expr(g.elt)[0]
+            for c in reversed(comp.ifs):
+                rest = 'SIf (%s) (%s) (SSkip)' % (self.expr(c)[0], rest)
+            return rest
+        # conditions of stage k may mention its target: bind targets before translating
+        loop = 'SFor (None) %s (%s) (%s)' % (x, src[0], body(0))
+        self.assigned = before
+        return [loop, 'SReturn (%s)' % self.expr(default)[0]]
 
     def translate(self):
         # locals bound in a loop body stay bound after it only if the loop ran; Python would raise UnboundLocalError
@@ -363,8 +484,9 @@ def generate() -> dict:
              ('expand_name', find_method(D, 'expandName'), 'Documentable.expandName')]
     lines = ['From Coq Require Import ZArith NArith List.', 'Import ListNotations.',
              'From PydoctorVerif Require Import Base.ImportSyntax Model.Names Model.NamesIR.', '']
+    module_funcs = {n.name: n for n in tree.body if isinstance(n, ast.FunctionDef)}
     for key, fn, title in items:
-        f = Fn(fn)
+        f = Fn(fn, module_funcs=module_funcs)
         text = f.translate()
         lines.append('(* %s ; locals: %s *)' % (title, ', '.join('%s=%d' % (k, v) for k, v in f.vars.items()) or 'none'))
         lines.append('Definition code_%s : istmt :=' % key)
